@@ -63,7 +63,7 @@ ANCHORS = [
     ("lib/sqlalchemy/orm/session.py", "SessionTransaction._restore_snapshot"),
 ]
 
-READ, SET, EXPIRE, EXPIRE_ALL, REFRESH, COMMIT, ROLLBACK, POPEX, EXT = range(9)
+READ, SET, EXPIRE, EXPIRE_ALL, REFRESH, COMMIT, ROLLBACK, POPEX, EXT, POPEX_COLS, EXPUNGE, ADD = range(12)
 ATTRS = ["id", "x", "y", "z"]  # attribute index 0 is the primary key attribute
 NOBJ = 2
 
@@ -87,7 +87,7 @@ def gen_cases(rng, tier):
         [EXPIRE, 1, [], 0], [EXPIRE, 1, [], 1], [EXPIRE, 1, [1], 0], [EXPIRE, 1, [2], 0], [EXPIRE, 1, [1, 2], 0],
         [EXPIRE, 1, [0], 0], [EXPIRE_ALL, 0, [], 0], [REFRESH, 1, [], 0], [REFRESH, 1, [], 1], [REFRESH, 1, [1], 0],
         [REFRESH, 1, [2], 0], [REFRESH, 1, [2, 3], 0], [COMMIT, 0, [], 0], [POPEX, 0, [], 0], [ROLLBACK, 0, [], 0],
-        [EXPIRE, 2, [], 0], [REFRESH, 2, [1], 0],
+        [EXPIRE, 2, [], 0], [REFRESH, 2, [1], 0], [POPEX_COLS, 0, [1], 0], [POPEX_COLS, 0, [2, 3], 0], [POPEX_COLS, 0, [], 0],
     ]
     for eoc in (0, 1):
         for pre in ([], [[SET, 1, [1], 0]], [[SET, 1, [2], 0]], [[COMMIT, 0, [], 0], [SET, 1, [1], 0]]):
@@ -101,12 +101,31 @@ def gen_cases(rng, tier):
                                 o[3] = next(vals)
                         ops += [[READ, 1, [1], 0], [READ, 1, [2], 0], [READ, 2, [1], 0]]
                         cases.append({"in": [eoc, _rows0(), ops], "kind": "small-scope"})
+    # instances that leave and re-enter the session without SQL (expunge / add), commit in a transaction without SQL
+    for eoc in (0, 1):
+        for pre in ([], [[COMMIT, 0, [], 0]], [[SET, 1, [2], 0]]):
+            for mid in ([], [[COMMIT, 0, [], 0]], [[ROLLBACK, 0, [], 0]], [[EXPIRE_ALL, 0, [], 0]], [[POPEX, 0, [], 0]], [[SET, 1, [1], 0]]):
+                for ext1 in ([], [[EXT, 1, [1], 0]]):
+                    for fin in ([COMMIT, 0, [], 0], [ROLLBACK, 0, [], 0], [EXPIRE_ALL, 0, [], 0], [READ, 1, [3], 0]):
+                        for ext2 in ([], [[EXT, 1, [1], 0]]):
+                            ops = [list(o) for o in pre] + [[EXPUNGE, 1, [], 0]] + [list(o) for o in mid] + [list(o) for o in ext1]
+                            ops += [[ADD, 1, [], 0], list(fin)] + [list(o) for o in ext2]
+                            for o in ops:
+                                if o[0] in (SET, EXT):
+                                    o[3] = next(vals)
+                            ops += [[READ, 1, [1], 0], [READ, 1, [2], 0], [READ, 2, [1], 0]]
+                            cases.append({"in": [eoc, _rows0(), ops], "kind": "reattach"})
     if tier != "thorough":
-        cases = rng.sample(cases, 450)
+        # always keep the re-attach histories that end in a commit without SQL under expire_on_commit
+        core = [c for c in cases if c["kind"] == "reattach" and c["in"][0] == 1 and [COMMIT, 0, [], 0] in c["in"][2][-5:]]
+        core = core[::4]
+        rest = [c for c in cases if c not in core]
+        cases = core + rng.sample(rest, 600 - len(core))
     for _ in range(20000 if tier == "thorough" else 500):
         ops = []
         for _ in range(rng.randint(2, 12)):
-            op = rng.choice([READ, READ, READ, SET, SET, EXPIRE, EXPIRE, EXPIRE_ALL, REFRESH, REFRESH, COMMIT, ROLLBACK, POPEX, EXT, EXT])
+            op = rng.choice([READ, READ, READ, SET, SET, EXPIRE, EXPIRE, EXPIRE_ALL, REFRESH, REFRESH, COMMIT, ROLLBACK, POPEX, EXT, EXT,
+                             POPEX_COLS, EXPUNGE, ADD, ADD])
             o = rng.randint(1, NOBJ)
             val = 0
             if op in (READ, SET, EXT):
@@ -115,6 +134,8 @@ def gen_cases(rng, tier):
             elif op in (EXPIRE, REFRESH):
                 names = rng.choice([[], [], [1], [2], [1, 2], [2, 3], [1, 2, 3], [3], [0], [0, 1]])
                 val = rng.randint(0, 1)  # empty name list: None or []
+            elif op == POPEX_COLS:
+                names = rng.choice([[], [1], [2], [1, 3], [2, 3], [1, 2, 3]])
             else:
                 names = []
             ops.append([op, o, names, val])
@@ -133,7 +154,7 @@ def nontrivial(c):
             return True
         if op == SET:
             pend = True
-        if pend and op in (EXPIRE, EXPIRE_ALL, REFRESH, COMMIT, ROLLBACK, POPEX):
+        if pend and op in (EXPIRE, EXPIRE_ALL, REFRESH, COMMIT, ROLLBACK, POPEX, POPEX_COLS):
             return True
     return False
 
@@ -181,9 +202,10 @@ def impl_setup():
 def impl(c):
     import warnings
 
-    from sqlalchemy import inspect, select
-    from sqlalchemy.exc import OperationalError
+    from sqlalchemy import inspect, select, text
+    from sqlalchemy.exc import InvalidRequestError, OperationalError
     from sqlalchemy.orm import Session
+    from sqlalchemy.orm.exc import DetachedInstanceError
 
     if not _st:
         impl_setup()
@@ -203,30 +225,42 @@ def impl(c):
             for op, o, names, val in ops:
                 del log[:]
                 res = [0]
-                if op == READ:
-                    res = [1, getattr(objs[o], ATTRS[names[0]])]
-                elif op == SET:
-                    setattr(objs[o], ATTRS[names[0]], val)
-                elif op == EXPIRE:
-                    s.expire(objs[o], [ATTRS[n] for n in names] if names or val else None)
-                elif op == EXPIRE_ALL:
-                    s.expire_all()
-                elif op == REFRESH:
-                    s.refresh(objs[o], [ATTRS[n] for n in names] if names or val else None)
-                elif op == COMMIT:
-                    try:
-                        s.commit()
-                    except OperationalError as err:
-                        if "locked" not in str(err):
-                            raise
+                try:
+                    if op == READ:
+                        res = [1, getattr(objs[o], ATTRS[names[0]])]
+                    elif op == SET:
+                        setattr(objs[o], ATTRS[names[0]], val)
+                    elif op == EXPIRE:
+                        s.expire(objs[o], [ATTRS[n] for n in names] if names or val else None)
+                    elif op == EXPIRE_ALL:
+                        s.expire_all()
+                    elif op == REFRESH:
+                        s.refresh(objs[o], [ATTRS[n] for n in names] if names or val else None)
+                    elif op == COMMIT:
+                        try:
+                            s.commit()
+                        except OperationalError as err:
+                            if "locked" not in str(err):
+                                raise
+                            s.rollback()
+                            res = [2]
+                    elif op == ROLLBACK:
                         s.rollback()
-                        res = [2]
-                elif op == ROLLBACK:
-                    s.rollback()
-                elif op == POPEX:
-                    s.scalars(select(A).execution_options(populate_existing=True)).all()
-                elif op == EXT:
-                    ext.execute("update a set %s=? where id=?" % ATTRS[names[0]], (val, o))
+                    elif op == POPEX:
+                        s.scalars(select(A).execution_options(populate_existing=True)).all()
+                    elif op == POPEX_COLS:
+                        cols = ", ".join(["id"] + [ATTRS[n] for n in names])
+                        s.scalars(
+                            select(A).from_statement(text("select %s from a" % cols)).execution_options(populate_existing=True)
+                        ).all()
+                    elif op == EXT:
+                        ext.execute("update a set %s=? where id=?" % ATTRS[names[0]], (val, o))
+                    elif op == EXPUNGE:
+                        s.expunge(objs[o])
+                    elif op == ADD:
+                        s.add(objs[o])
+                except (InvalidRequestError, DetachedInstanceError):
+                    res = [3]
                 view = []
                 for k in sorted(objs):
                     st = inspect(objs[k])
@@ -236,6 +270,7 @@ def impl(c):
                             [int(a in st.committed_state) for a in ATTRS],
                             [int(a in st.expired_attributes) for a in ATTRS],
                             int(st.modified),
+                            int(not st.detached),
                         ]
                     )
                 rows = [list(r) for r in ext.execute("select id,x,y,z from a order by id")]
@@ -252,16 +287,20 @@ def oracle(c, obs):
     snapshot = {k: list(v) for k, v in com.items()}  # the initial get() opened the transaction
     # what the property lets us expect from a read: ("pend", v) | ("exp",) | ("val", v) | None (no expectation)
     st = {(k, a): ("val", com[k][a]) for k in com for a in range(1, 4)}
-    prev = [[list(r), [0] * 4, [0] * 4, 0] for r in rows0]
+    att = {k: True for k in com}  # attached to the session (session-wide operations reach attached instances only)
+    prev = [[list(r), [0] * 4, [0] * 4, 0, 1] for r in rows0]
 
     def cur():
         return snapshot if snapshot is not None else com
 
     for n, ((op, o, names, val), (res, nsel, view, rows)) in enumerate(zip(ops, obs)):
         full = op in (EXPIRE, REFRESH) and not names
+        err = res == [3]
         if nsel and snapshot is None and op != COMMIT:
             snapshot = {k: list(v) for k, v in com.items()}
-        if op == READ:
+        if err:
+            pass  # the operation was refused (detached instance): nothing may change, checked below
+        elif op == READ:
             a = names[0]
             s0 = st[(o, a)]
             want = None
@@ -294,7 +333,8 @@ def oracle(c, obs):
                     st[(o, a)] = ("exp",)
         elif op == EXPIRE_ALL:
             for key in st:
-                st[key] = ("exp",)
+                if att[key[0]]:
+                    st[key] = ("exp",)
         elif op == REFRESH:
             if nsel != 1:
                 return "op %d: refresh emitted %d SELECTs" % (n, nsel)
@@ -303,44 +343,55 @@ def oracle(c, obs):
                     if view[o - 1][0][a] != cur()[o][a]:
                         return "op %d: refresh left %s.%s = %s, database has %s" % (n, o, ATTRS[a], view[o - 1][0][a], cur()[o][a])
                     st[(o, a)] = ("val", cur()[o][a])
-        elif op == POPEX:
+        elif op in (POPEX, POPEX_COLS):
             for (k, a) in st:
-                if view[k - 1][0][a] != cur()[k][a]:
-                    return "op %d: populate_existing left %s.%s = %s, database has %s" % (n, k, ATTRS[a], view[k - 1][0][a], cur()[k][a])
-                st[(k, a)] = ("val", cur()[k][a])
+                if not att[k]:
+                    continue
+                if op == POPEX or a in names:
+                    if view[k - 1][0][a] != cur()[k][a]:
+                        return "op %d: populate_existing left %s.%s = %s, database has %s" % (n, k, ATTRS[a], view[k - 1][0][a], cur()[k][a])
+                    st[(k, a)] = ("val", cur()[k][a])
+                else:
+                    # the column is not in the row: it must not keep an old value; a later read shows the database
+                    st[(k, a)] = ("exp",)
         elif op == COMMIT:
             snapshot = None
-            if res == [0]:
-                for key, s0 in st.items():
-                    if eoc:
-                        st[key] = ("exp",)
-                    elif s0 is not None and s0[0] == "pend":
-                        st[key] = ("val", s0[1])
-                    elif s0 is not None and s0[0] == "exp":
-                        st[key] = None  # the flush may have loaded it; no expectation
-            else:
-                for key in st:
+            for key, s0 in st.items():
+                if not att[key[0]]:
+                    continue
+                if res != [0]:
                     st[key] = None
+                elif eoc:
+                    st[key] = ("exp",)
+                elif s0 is not None and s0[0] == "pend":
+                    st[key] = ("val", s0[1])
+                elif s0 is not None and s0[0] == "exp":
+                    st[key] = None  # the flush may have loaded it; no expectation
         elif op == ROLLBACK:
             snapshot = None
             for key in st:
-                st[key] = None
-        # what an operation must NOT touch: attributes not named by expire/refresh, other instances; reads, sets and
-        # external updates leave every other attribute's dict value and pending flag alone
-        if op in (EXPIRE, REFRESH, SET, READ, EXT):
+                if att[key[0]]:
+                    st[key] = None
+        elif op == EXPUNGE:
+            att[o] = False
+        elif op == ADD:
+            att[o] = True
+        # what an operation must NOT touch: attributes not named by expire/refresh, other instances; reads, sets,
+        # external updates, expunge / add and refused operations leave every other attribute's dict value and pending flag alone
+        if op in (EXPIRE, REFRESH, SET, READ, EXT, EXPUNGE, ADD) or err:
             for k in com:
                 for a in range(1, 4):
                     touched = k == o and (
                         (op in (EXPIRE, REFRESH) and (full or a in names)) or (op == SET and a == names[0]) or op == READ
                     )
-                    if op == EXT:
+                    if op in (EXT, EXPUNGE, ADD) or err:
                         touched = False
                     if touched:
                         continue
                     if view[k - 1][0][a] != prev[k - 1][0][a] or view[k - 1][1][a] != prev[k - 1][1][a]:
                         return "op %d: %s.%s changed from %s (pending=%s) to %s (pending=%s) although the operation does not concern it" % (
                             n, k, ATTRS[a], prev[k - 1][0][a], prev[k - 1][1][a], view[k - 1][0][a], view[k - 1][1][a])
-        if op == READ:
+        if op == READ and not err:
             # a read may load other expired attributes of the same instance but never changes a pending one
             for a in range(1, 4):
                 if prev[o - 1][1][a] and (view[o - 1][0][a] != prev[o - 1][0][a] or not view[o - 1][1][a]):
